@@ -135,6 +135,15 @@ def encryptor_reuse(res, prop: str):
             it = ct.decode(info)
             enc = (it.nested if it.nested is not None else ct.decode(it.data)).children[0].children
             iv = dict((kk.arg, vv) for kk, vv in enc[1].children)[5].data
+            # the recipients of this call's info are this call's: exactly one, naming the key identifier asked for (nothing left over from earlier calls)
+            try:
+                recips = enc[3].children
+                kids = [ct.decode(dict((kk.arg, vv) for kk, vv in r.children[1].children)[4].data).arg for r in recips]
+            except Exception:  # noqa
+                recips, kids = None, None
+            if recips is None or len(recips) != 1 or kids != [7]:
+                res.spec_failures.append({"reuse": "encryptor", "position": k, "context": party, "recipients": None if recips is None else len(recips), "key_ids": kids,
+                                          "what": "the encryption info of a later call in the same process does not list exactly the one recipient of this call"})
             aad = ct.encode(ct.arr([ct.tstr("Encrypt"), ct.bstr(enc[0].data), ct.bstr(b"")]))
             try:
                 ok = AESGCM(parties[party]["aes"]).decrypt(iv, content + tag, aad) == fw
